@@ -21,7 +21,9 @@ META = dict(
          "<= 2. Required: nothing raises; the origins see exactly the requests GET <path?query> of the urljoin-resolved "
          "locations, in order, each at the resolved (scheme, host, port) with a matching Host header; the client delivers exactly "
          "one response: the 200 of the last origin, not errored, carrying the redirect responses (status, Location, body) in "
-         "order; a second request sent afterwards is answered by the last origin and its response carries no redirects; when a "
+         "order; a second request sent afterwards on the same Patron is answered with one more redirect (relative or absolute "
+         "to the other port, by status rotation) which must be followed to the resolved location, and its final response carries "
+         "exactly that one redirect; when a "
          "Location leaves https for http no request is sent there (and no further request at all) and at most one response is "
          "delivered; no request ever reaches an http origin after an https one.",
     note="Origins are harness-played (they answer a complete request at once); the redirected method is not judged (the "
@@ -133,6 +135,17 @@ def execute(ch, start, chain, rot, part, states):
     L = len(chain)
     exp, down_at = expectations(start, chain)
     seen = []
+    # where the chain ends, and the redirect the second request will get: relative or absolute to the other port
+    cur = STARTS[start]
+    for name, loc in chain:
+        cur = urljoin(cur, loc)
+    scheme2, host2, port2 = origin_of(cur)
+    if rot % 2 == 0:
+        loc2 = "/again%d/w?r=2" % L
+    else:
+        pair = PORTS[scheme2]
+        loc2 = "%s://%s:%d/again%d?r=2" % (scheme2, host2, pair[1] if port2 == pair[0] else pair[0], L)
+    url2 = urljoin(cur, loc2)
 
     def route(origin, rq):
         k = len(seen) - 1            # this request's index
@@ -141,6 +154,10 @@ def execute(ch, start, chain, rot, part, states):
             body = b"moved%d" % k
             return ("HTTP/1.1 %d %s\r\nLocation: %s\r\nContent-Type: text/plain\r\nContent-Length: %d\r\n\r\n"
                     % (status, reason, chain[k][1], len(body))).encode() + body
+        if k == L + 1:          # the second request on the same Patron is redirected once more
+            body = b"again"
+            return ("HTTP/1.1 302 Found\r\nLocation: %s\r\nContent-Type: text/plain\r\nContent-Length: %d\r\n\r\n"
+                    % (loc2, len(body))).encode() + body
         body = b"final%d" % k
         return b"HTTP/1.1 200 OK\r\nContent-Type: text/plain\r\nContent-Length: %d\r\n\r\n" % len(body) + body
 
@@ -248,10 +265,11 @@ def execute(ch, start, chain, rot, part, states):
         elif gotc != wantc:
             viol.append(("redirect-body-changed", "the redirect responses carried by the final response have bodies %r, the "
                          "origins sent %r" % ([g[2] for g in gotc], [w[2] for w in wantc])))
-    # ---- the connection / bookkeeping is clean for the next request: no stale chain on a later response
+    # ---- a second request on the same Patron, itself redirected once: followed to the right place, its response
+    # carries the chain of THAT request only
     if rs and not viol and down_at is None:
         patron.request()
-        for i in range(6):
+        for i in range(12):
             try:
                 if i % 2 == 0:
                     patron.serviceAll()
@@ -259,20 +277,32 @@ def execute(ch, start, chain, rot, part, states):
                     for o in origins:
                         o.service()
             except Exception as ex:
-                viol.append(("raised|%s" % hh.exc_sig(ex), "second request after the final response: serviceAll raised %r" % (ex,)))
+                viol.append(("raised|%s" % hh.exc_sig(ex), "second request on the same Patron: serviceAll raised %r" % (ex,)))
                 break
             part.transitions += 1
+            if i >= 5 and len(patron.responses) >= 2 and i % 2 == 1:
+                break
         if not viol:
             rs2 = list(patron.responses)
-            if len(rs2) != 2 or rs2[1].get("status") != 200 or rs2[1].get("errored"):
-                viol.append(("second-request-unanswered", "a second request after the final response got %d responses (status %r)"
-                             % (len(rs2) - 1, rs2[1].get("status") if len(rs2) > 1 else None)))
-            elif rs2[1].get("redirects"):
-                viol.append(("stale-redirect-chain", "the response to a second, not redirected request carries %d redirects of "
-                             "the previous chain" % len(rs2[1]["redirects"])))
-            elif len(seen) != len(exp) + 1 or seen[-1][0] != exp[-1][0]:
-                viol.append(("second-request-misrouted", "the second request went to %r, expected the last origin %r"
-                             % (seen[-1][0] if len(seen) > len(exp) else None, exp[-1][0])))
+            got2 = [(key, rq["method"], canon(rq["target"])) for key, rq in seen[len(exp):]]
+            want2 = [(exp[-1][0], "GET", canon(exp[-1][1])), (origin_of(url2), "GET", canon(target_of(url2)))]
+            if got2 != want2:
+                viol.append(("later-request-redirect-not-followed" if len(got2) < 2 else "later-request-misrouted",
+                             "second request on the same Patron, answered 302 Location: %s: the origins saw %r, expected %r"
+                             % (loc2, [(k_, m, seen[len(exp) + n][1]["target"]) for n, (k_, m, t) in enumerate(got2)],
+                                [(want2[0][0], "GET", exp[-1][1]), (want2[1][0], "GET", target_of(url2))])))
+            elif len(rs2) != 2:
+                viol.append(("later-request-stalled", "second request on the same Patron (redirected once): %d responses delivered "
+                             "after 12 service calls, waited=%s" % (len(rs2) - 1, patron.waited)))
+            elif rs2[1].get("status") != 200 or rs2[1].get("errored") or bytes(rs2[1].get("body") or b"") != b"final%d" % (L + 2):
+                viol.append(("later-request-wrong-final", "second request: final response status %r errored=%r body %r, expected "
+                             "200 %r" % (rs2[1].get("status"), rs2[1].get("errored"), bytes(rs2[1].get("body") or b""),
+                                         b"final%d" % (L + 2))))
+            else:
+                gotc = [(d.get("status"), (d.get("headers") or {}).get("location")) for d in (rs2[1].get("redirects") or [])]
+                if gotc != [(302, loc2)]:
+                    viol.append(("stale-redirect-chain", "the response to the second request (redirected once, Location: %s) "
+                                 "carries the redirects %r" % (loc2, gotc)))
     part.outcome("%s L=%d %s" % (start, L, "violation" if viol else "refused downgrade" if down_at is not None else "followed"))
     return viol, "".join(order), seen
 
